@@ -156,6 +156,20 @@ def check_construct(run, db):
             if not ci:
                 problems.append('`%s` may throw outside the try block' % tstr(s.throws[2])[:80])
                 continue
+            # the cursor that bounds the rollback counts constructed elements: it must not have moved past the element whose
+            # constructor is the one that throws (advance after construction, not in the placement argument)
+            ti = [k for k, it in enumerate(items) if it[0] == 'throw']
+            thr_t = s.throws[2] if isinstance(s.throws[2], dict) else {}
+            if ti and thr_t.get('k') == 'new':
+                before = items[:ti[0]]
+                if before and before[-1][0] == 'ev' and before[-1][1] is s.throws[1]:
+                    before = before[:-1]        # the construction that throws is not a completed one
+                done = sum(1 for it in before if it[0] == 'ev' and (top_term(it[1]) or {}).get('k') == 'new')
+                moved = sum(1 for it in before if it[0] == 'ev' and it[1]['ev'] == 'incdec' and it[1].get('op', '').startswith('++')
+                            and sym.strip_casts(it[1].get('lhs') or {}).get('did') in place_dids)
+                if moved != done:
+                    problems.append('when the constructor of element #%d throws the construction cursor has been advanced %d time(s): the rollback over [begin, cursor) '
+                                    'destroys %s' % (done, moved, 'an element that was never constructed' if moved > done else 'too few elements'))
             after = items[ci[0]:]
             loops = [it for it in after if it[0] == 'br' and len(it) > 4 and it[4] in ('ForStmt', 'WhileStmt')]
             dtors = [it for it in after if it[0] == 'ev' and top_term(it[1]) is not None and top_term(it[1]).get('short') == '<dtor>']
